@@ -39,6 +39,24 @@ type action struct {
 	Drop int             `json:"drop"`
 	Out  string          `json:"out"`
 	Next string          `json:"next"`
+	At   string          `json:"at"`
+}
+
+// nextInit: how the model says the initialisation of session s ends, looking ahead in the behaviour
+func nextInit(steps []vio.Step, s string) string {
+	for _, st := range steps {
+		var a action
+		if json.Unmarshal(st.A, &a) != nil || a.S != s {
+			continue
+		}
+		switch a.N {
+		case "InitOk":
+			return "ok"
+		case "InitFail":
+			return a.At
+		}
+	}
+	return ""
 }
 
 func (a *action) kInt() int {
@@ -220,6 +238,7 @@ type variant struct {
 	Server     string `json:"server"`    // socks5
 	BatchMode  string `json:"batchMode"` // no | sendmmsg
 	NATTimeout string `json:"natTimeout"`
+	Client     string `json:"client,omitempty"` // "" = direct client; "socks5" = SOCKS5 client towards a harness SOCKS5 server
 }
 
 const stepTimeout = 10 * time.Second
@@ -227,6 +246,16 @@ const stepTimeout = 10 * time.Second
 var debug = os.Getenv("VERIF_DEBUG") != ""
 
 var dnsOnce sync.Once
+
+var socks5Endpoint string // set before relayConfig for variants with the SOCKS5 client
+
+func clientConfig(v variant) map[string]any {
+	if v.Client == "socks5" {
+		// (the router refers to the client by name; the name stays "direct")
+		return map[string]any{"name": "direct", "protocol": "socks5", "endpoint": socks5Endpoint, "enableUDP": true, "mtu": 1500}
+	}
+	return map[string]any{"name": "direct", "protocol": "direct", "enableUDP": true, "mtu": 1500}
+}
 
 func relayConfig(v variant, rejectIP string) []byte {
 	server := map[string]any{
@@ -239,7 +268,7 @@ func relayConfig(v variant, rejectIP string) []byte {
 	}
 	cfg := map[string]any{
 		"servers": []any{server},
-		"clients": []any{map[string]any{"name": "direct", "protocol": "direct", "enableUDP": true, "mtu": 1500}},
+		"clients": []any{clientConfig(v)},
 		"router": map[string]any{
 			"defaultUDPClientName": "direct",
 			"routes":               []any{map[string]any{"name": "rej", "network": "udp", "client": "reject", "toPrefixes": []string{rejectIP + "/32"}, "disableNameResolutionForIPRules": true}},
@@ -393,6 +422,22 @@ func runBehaviour(t *testing.T, in *vio.Input, bi int, b vio.Behaviour, v varian
 		return
 	}
 	defer e.close()
+	var s5 *relayenv.Socks5Server
+	if v.Client == "socks5" {
+		var err error
+		if s5, err = relayenv.StartSocks5Server(4); err != nil {
+			res.Break("socks5 server: %v", err)
+			return
+		}
+		defer s5.Close()
+		socks5Endpoint = s5.Addr()
+	}
+	var restoreFDs func()
+	defer func() {
+		if restoreFDs != nil {
+			restoreFDs()
+		}
+	}()
 	baseSock := relayenv.SocketFDs()
 	w := &world{keyOf: map[string]string{}, sessOf: map[string]string{}, goSess: map[int64]string{}, parkedAt: map[string]*parked{}, signals: map[string]int{}}
 	w.cond = sync.NewCond(&w.mu)
@@ -450,7 +495,11 @@ func runBehaviour(t *testing.T, in *vio.Input, bi int, b vio.Behaviour, v varian
 		}
 		e.clients = map[string]*relayenv.Sock{}
 		if got := relayenv.SocketFDs(); got > baseSock {
-			time.Sleep(50 * time.Millisecond)
+			// (a SOCKS5 client session closes its control connection from a goroutine of its own, and the harness server
+			// closes its end when it sees that)
+			for dl := time.Now().Add(2 * time.Second); got > baseSock && time.Now().Before(dl); got = relayenv.SocketFDs() {
+				time.Sleep(20 * time.Millisecond)
+			}
 			if got = relayenv.SocketFDs(); got > baseSock {
 				fail("relay.stop/socket-leak", fmt.Sprintf("%d sockets are still open after Stop returned", got-baseSock), si, baseSock, got)
 			}
@@ -468,6 +517,7 @@ func runBehaviour(t *testing.T, in *vio.Input, bi int, b vio.Behaviour, v varian
 	queued := map[string][]string{}   // payloads queued to the session's send channel, in order
 	curPayload := map[string]string{} // the payload the uplink is working on
 	batch := map[string][]string{}    // batched uplink: payloads packed and not yet written
+	sockFails, acceptedBefore := 0, 0
 	replyFrom := map[string]string{}  // target the pending reply was sent from
 	type reply struct {
 		kind    string
@@ -580,7 +630,22 @@ func runBehaviour(t *testing.T, in *vio.Input, bi int, b vio.Behaviour, v varian
 				w.mu.Unlock()
 			}
 			lastPkt[a.S] = pkt
-			if _, err := client(a.S).Conn.WriteToUDP(pkt, relayAddr); err != nil {
+			cconn := client(a.S).Conn
+			if a.Out == "new" && nextInit(b.Steps[si+1:], a.S) == "socket" {
+				// the model: routing and the client session succeed, creating the session's socket fails.  Leave room for
+				// exactly the client session's two descriptors (its TCP socket, the harness server's accepted connection)
+				if s5 == nil {
+					brk("socket fault without the SOCKS5 client variant")
+					return
+				}
+				acceptedBefore = s5.Accepted()
+				var err error
+				if restoreFDs, err = relayenv.LimitFDs(2); err != nil {
+					brk("%v", err)
+					return
+				}
+			}
+			if _, err := cconn.WriteToUDP(pkt, relayAddr); err != nil {
 				brk("%v", err)
 				return
 			}
@@ -659,6 +724,40 @@ func runBehaviour(t *testing.T, in *vio.Input, bi int, b vio.Behaviour, v varian
 			}
 		case "InitFail":
 			queued[a.S] = nil
+			if a.At == "socket" {
+				// wait for the relay to report the failed socket, then lift the limit
+				dl := time.Now().Add(stepTimeout)
+				for r.CountLogs("Failed to create UDP socket for new NAT session")+r.CountLogs("Failed to create UDP socket for new session") == sockFails && time.Now().Before(dl) {
+					time.Sleep(2 * time.Millisecond)
+				}
+				if restoreFDs != nil {
+					restoreFDs()
+					restoreFDs = nil
+				}
+				if r.CountLogs("Failed to create UDP socket for new NAT session")+r.CountLogs("Failed to create UDP socket for new session") == sockFails {
+					// the descriptor limit bit somewhere else (or not at all): not the behaviour being replayed
+					res.Count("skipped_fault_misplaced", 1)
+					res.Sample(map[string]any{"fault_misplaced_logs": r.LogTail(4)}, 2)
+					finish(si)
+					return
+				}
+				sockFails++
+				if s5.Accepted() == acceptedBefore {
+					brk("the session's socket failed before its client session was created")
+					return
+				}
+				// C12: nothing of a session whose initialisation failed may stay behind - its client session is closed
+				dl = time.Now().Add(stepTimeout)
+				for s5.OpenControlConns() > 0 && time.Now().Before(dl) {
+					time.Sleep(5 * time.Millisecond)
+				}
+				if n := s5.OpenControlConns(); n > 0 {
+					fail("relay.lifecycle/client-session-leaked", fmt.Sprintf("the session's socket could not be created; its client session (SOCKS5 control connection) is still open %s later", stepTimeout), si, 0, n)
+					finish(si)
+					return
+				}
+				res.Count("socket_faults_injected", 1)
+			}
 			if !waitCleanup(a.S, stepTimeout) {
 				brk("rejected session was not cleaned up")
 				return
